@@ -1,8 +1,8 @@
 package op
 
 import (
-	"errors"
 	"context"
+	"errors"
 	"fmt"
 	"log/slog"
 	"net/http"
